@@ -39,6 +39,9 @@ type Rq struct {
 	// an upstream URL, and carries a body that is itself a well-formed request. Whatever the proxy answers
 	// (the exchange itself is not compared), the exchanges after it must be unaffected.
 	BadHost string `json:"bad_host,omitempty"`
+	// GetBody: a GET that carries a (pointless but legal) request body; whether it is answered from the store or
+	// by the origin, its body belongs to this exchange and must not be read as the start of the next one
+	GetBody bool `json:"get_body,omitempty"`
 }
 
 type Case struct {
@@ -133,10 +136,17 @@ func runSeq(c Case, mode string) ([]obs, []string, string) {
 	}()
 	var out []obs
 	retried := map[string]int{}
+	skipIDs := map[string]bool{}
 	for i, rq := range c.Requests {
+		if rq.GetBody {
+			skipIDs[fmt.Sprintf("q%d", i)] = true
+		}
 		req := px.Req{Method: rq.Method, Host: org.Addr(), Target: fmt.Sprintf("/p%d", rq.Path), ReqID: fmt.Sprintf("q%d", i)}
 		if rq.Range != "" {
 			req.Headers = append(req.Headers, px.H{K: "Range", V: rq.Range})
+		}
+		if rq.GetBody && rq.Method == "GET" && rq.Range == "" {
+			req.Body = "hello"
 		}
 		if rq.Method == "POST" {
 			req.Body = "post-body"
@@ -212,6 +222,9 @@ func runSeq(c Case, mode string) ([]obs, []string, string) {
 	for _, e := range org.Log() {
 		// an exchange px had to repeat (net/http body hand-over artefact, see px.Plain) reached the origin more
 		// than once under the same id: count it once
+		if skipIDs[e.ReqID] && e.Method == "GET" {
+			continue // a GET carrying a body: how often it is fetched is the recorded C08 finding, not this check's subject
+		}
 		if n := retried[e.ReqID]; n > 0 {
 			retried[e.ReqID] = n - 1
 			continue
@@ -253,6 +266,10 @@ var sub = ev.Register("tunnel-differential",
 				o.Class("bad-host-exchange-on-tunnel")
 				continue
 			}
+			if rq.GetBody && rq.Method == "GET" && rq.Range == "" {
+				o.Class("get-with-body-on-tunnel")
+				continue
+			}
 			if x.err != "" {
 				return ev.Failf("tunnel.exchange-failed", "one-tunnel: request %d (%s /p%d %s) failed: %s (status %d, %d body bytes)", i, rq.Method, rq.Path, rq.Range, x.err, x.status, len(x.body))
 			}
@@ -285,7 +302,7 @@ var sub = ev.Register("tunnel-differential",
 			}
 			for i := range p {
 				rq := c.Requests[i]
-				if rq.BadHost != "" {
+				if rq.BadHost != "" || (rq.GetBody && rq.Method == "GET" && rq.Range == "") {
 					continue
 				}
 				if x[i].err != "" || p[i].err != "" {
@@ -342,6 +359,9 @@ func drawCase(t *rapid.T) Case {
 			a := rapid.IntRange(0, l).Draw(t, "a")
 			b := rapid.IntRange(a, l+2).Draw(t, "b")
 			rq.Range = fmt.Sprintf("bytes=%d-%d", a, b)
+		}
+		if rq.Method == "GET" && rq.Range == "" && rapid.IntRange(0, 7).Draw(t, "get-body") == 0 {
+			rq.GetBody = true
 		}
 		if rapid.IntRange(0, 11).Draw(t, "bad-host") == 0 {
 			rq = Rq{Method: "POST", Path: rq.Path, BadHost: rapid.SampledFrom([]string{"bad host", "example.com:abc", "a%zzb", "[::1"}).Draw(t, "host")}
